@@ -925,10 +925,13 @@ impl<'a, F: Float, K: 'a + Permutable<F>> SolverState<'a, F, K> {
             ExitReason::ReachedThreshold
         };
 
-        // put back the solution
-        let mut alpha: Vec<F> = (0..self.ntotal())
-            .map(|i| self.alpha[self.active_set[i]].val())
-            .collect();
+        // put back the solution: position `i` holds the variable of sample `active_set[i]`
+        let mut alpha = vec![F::zero(); self.ntotal()];
+        let mut targets = vec![true; self.ntotal()];
+        for i in 0..self.ntotal() {
+            alpha[self.active_set[i]] = self.alpha[i].val();
+            targets[self.active_set[i]] = self.targets[i];
+        }
 
         // If we are solving a regresssion problem the number of alpha values
         // computed by the solver are 2*(#samples). The final weights of each sample
@@ -960,7 +963,8 @@ impl<'a, F: Float, K: 'a + Permutable<F>> SolverState<'a, F, K> {
             let mut tmp = Array1::zeros(self.dataset.len_of(Axis(1)));
 
             for (i, elm) in self.dataset.outer_iter().enumerate() {
-                tmp.scaled_add(self.target(i) * alpha[i], &elm);
+                let sign = if targets[i] { F::one() } else { -F::one() };
+                tmp.scaled_add(sign * alpha[i], &elm);
             }
 
             SeparatingHyperplane::Linear(tmp)
